@@ -267,7 +267,13 @@ def run_case(ctx, case):
             if nontriv:
                 ctx.nontriv([files, opname, l, c])
             # apply
-            if case["apply"] and picks.pop() % 3 == 0:
+            outside = [str(p_) for p_ in list(changed) + [a_ for a_, _ in renames] + [b_ for _, b_ in renames]
+                       if p_ is not None and not str(p_).startswith(str(root) + os.sep)]
+            if outside:
+                # harness safety: a refactoring that reaches files outside the scratch project (a renamed stdlib module
+                # would be moved for real) is inspected but never applied
+                ctx.cls("not-applied:touches-files-outside-the-scratch-project")
+            elif case["apply"] and picks.pop() % 3 == 0:
                 expected = dict(before)
                 for p, new_code in new_codes.items():
                     expected[rel(p)] = new_code.encode("utf-8")
